@@ -42,9 +42,10 @@ def deepen(pid, root, base_keys):
         res = list(ex.map(selftest.run_one, [(pid, root, m) for m in corpus]))
     applied = [r for r in res if r[1] != "BROKEN-MUTANT"]
     out["corpus"] = {"entries": len(corpus), "applicable_to_this_tree": len(applied), "as_expected": sum(1 for r in applied if r[1] == "PASS"),
+                     "neutral_edits_reported_by_reference_agreement_only": [r[0] for r in applied if r[1] == "REFERENCE-ONLY"],
                      "not_applicable": [r[0] for r in res if r[1] == "BROKEN-MUTANT"][:10]}
     for name, status, info in applied:
-        if status != "PASS":
+        if status not in ("PASS", "REFERENCE-ONLY"):
             warnings.append(f"SELFTEST-WARNING property={pid} corpus entry '{name}' did not behave as expected: {info[:160]}")
     try:
         out["mutation_sweep"] = mutation_sweep(pid, root)
